@@ -23,6 +23,8 @@ import (
 	banktypes "github.com/cosmos/cosmos-sdk/x/bank/types"
 	minttypes "github.com/cosmos/cosmos-sdk/x/mint/types"
 	stakingtypes "github.com/cosmos/cosmos-sdk/x/staking/types"
+	govtypes "github.com/cosmos/cosmos-sdk/x/gov/types"
+	govv1 "github.com/cosmos/cosmos-sdk/x/gov/types/v1"
 	"github.com/ignite/cli/ignite/pkg/cosmoscmd"
 	abci "github.com/tendermint/tendermint/abci/types"
 	"github.com/tendermint/tendermint/libs/log"
@@ -196,6 +198,14 @@ func BuildGenesis(enc cosmoscmd.EncodingConfig, cfg GenesisConfig) (map[string]j
 	sp.MaxValidators = 10
 	stGen := stakingtypes.NewGenesisState(sp, validators, delegations)
 	gs[stakingtypes.ModuleName] = cdc.MustMarshalJSON(stGen)
+
+	// governance: a deposit anybody can afford and a voting period of three blocks, so that
+	// parameter-change proposals can pass inside a generated history
+	govGen := govv1.DefaultGenesisState()
+	votingPeriod := 15 * time.Second
+	govGen.VotingParams.VotingPeriod = &votingPeriod
+	govGen.DepositParams.MinDeposit = sdk.NewCoins(sdk.NewInt64Coin(denom, 1000))
+	gs[govtypes.ModuleName] = cdc.MustMarshalJSON(govGen)
 
 	bankGen := banktypes.NewGenesisState(banktypes.DefaultGenesisState().Params, balances, total, []banktypes.Metadata{})
 	gs[banktypes.ModuleName] = cdc.MustMarshalJSON(bankGen)
